@@ -420,6 +420,13 @@ class C06(Base):
 
     def cli_cases(self, rng, n):
         names = ["a", "b", "vec![]", "", "feature1", "Feature1", "feature", "removal-marker", "[]", "vec!", "+00:00"]
+        # every name of the pool once as the only flag target and once as the only config-file line
+        for f in names:
+            others = [x for x in names if x != f]
+            for via in ("flag", "file"):
+                doc_names = [rng.choice(others), f, rng.choice(others)]
+                body = {"cli": True, "doc_names": doc_names, "flags": [f] if via == "flag" else [], "file": [f] if via == "file" else None}
+                yield Case("cli-targets", [], body, key=json.dumps(body, sort_keys=True))
         for i in range(n):
             doc_names = [rng.choice(names) for _ in range(3)]
             flags = [rng.choice(names) for _ in range(rng.choice([0, 0, 1, 2]))]
